@@ -70,6 +70,7 @@ def register(reg):
                      canaries=['self.checkSum == 1'], crosscheck=False))
     register_writer(reg)
     register_reader(reg)
+    register_reader_walk(reg)
     register_tif(reg)
 
 
@@ -185,6 +186,33 @@ def register_reader(reg):
     reg.add(Contract(PR, 'PhysRecRead.tellLr', {'self': RD}, returns=Int, ensures=['result == self.startOfLr'], canaries=['result == 0'], crosscheck=False))
 
 
+SPEC_WALK = '''
+def prs_ok(F, isp, nx, rem):
+    """Ghost layout of a LIS file by file position (no TIF markers, no padding): isp[x] == 1 marks the start of a physical
+    record, nx[x] is where it ends (= start of the next one or the end of the file), rem[x] is the number of logical data
+    bytes from the start of this record's data to the end of its logical record."""
+    return (len(isp) == len(F) + 1 and len(nx) == len(F) + 1 and len(rem) == len(F) + 1
+            and forall(0, len(F), lambda x: implies(isp[x] == 1,
+                       x + 4 <= len(F) and be16(F, x) == nx[x] - x and nx[x] <= len(F)
+                       and not bitset(be16(F, x + 2), 14) and not bitset(be16(F, x + 2), 13)
+                       and ld_len(be16(F, x), be16(F, x + 2)) >= 0
+                       and rem[x] >= ld_len(be16(F, x), be16(F, x + 2))), trigger=lambda x: [isp[x]])
+            # a record with the successor bit is followed by the next record of the same logical record
+            and forall(0, len(F), lambda x: implies(isp[x] == 1 and bitset(be16(F, x + 2), 0),
+                       nx[x] + 4 <= len(F) and isp[nx[x]] == 1
+                       and rem[x] == ld_len(be16(F, x), be16(F, x + 2)) + rem[nx[x]]), trigger=lambda x: [nx[x]])
+            and forall(0, len(F), lambda x: implies(isp[x] == 1 and not bitset(be16(F, x + 2), 0),
+                       rem[x] == ld_len(be16(F, x), be16(F, x + 2))), trigger=lambda x: [rem[x]]))
+
+def cur_in(self, F, isp, nx):
+    """the reader stands inside the physical record that starts at self.startPrPos, header read"""
+    return (0 <= self.startPrPos and self.startPrPos < len(F) and isp[self.startPrPos] == 1 and not self._mustReadHead and not self.isEOF
+            and self.prLen == be16(F, self.startPrPos) and self.prAttr == be16(F, self.startPrPos + 2)
+            and self.ldLen == ld_len(self.prLen, self.prAttr) and 0 <= self._ldIndex and self._ldIndex <= self.ldLen
+            and self.stream._stream.pos == self.startPrPos + 4 + self._ldIndex)
+'''
+
+
 TW = KRec('TifMarkerWrite', hasTif=True, tifType=Int, tifBack=Int, tifNext=Int, previousDiff=Int)
 SPEC_T = '''
 def le32(F, p):
@@ -252,6 +280,63 @@ def register_tif(reg):
             'bytes_written == G[tif_markers_stripped - 1]', 'len(file_out.data) == bytes_written', 'file_out.pos == bytes_written',
             'forall(0, len(file_out.data), lambda n: file_out.data[n] == P[n])'])],
         canaries=['result[0] == 1', 'len(file_out.data) == 0'], crosscheck=False, timeout=40))
+
+
+def register_reader_walk(reg):
+    """Sized reads and skips of logical data across physical records (PhysRecRead.readLrBytes / skipLrBytes with a size,
+    __readOrSkip's sized branch, the two leaf helpers): for every layout of physical records, wherever the reader stands
+    inside a logical record and whatever size is asked for, exactly min(size, bytes left in this logical record) bytes are
+    consumed, the reader still stands inside a physical record of the SAME logical record (no trailer is consumed, the next
+    record's header is not read), and the start of the logical record it reports is unchanged."""
+    reg.add_spec_source(SPEC_WALK)
+    D = 'self.stream._stream.data'
+    POS = 'self.stream._stream.pos'
+    G = {'isp': KView(Int), 'nx': KView(Int), 'rem': KView(Int)}
+    LAY = 'prs_ok(%s, isp, nx, rem)' % D
+    CUR = 'cur_in(self, %s, isp, nx)' % D
+    AVAIL = '(rem[self.startPrPos] - self._ldIndex)'
+    LEAFREQ = ['size >= 0', 'size <= self.ldLen - self._ldIndex', POS + ' >= 0', POS + ' + size <= len(' + D + ')']
+    LEAFMOD = ['self.stream._stream.pos', 'self._ldIndex', 'self._ldTell']
+    LEAFENS = ['%s == old(%s) + size' % (POS, POS), 'self._ldIndex == old(self._ldIndex) + size', 'self._ldTell == old(self._ldTell) + size']
+    reg.add(Contract(PR, 'PhysRecRead.__readLdWithinPr', {'self': RD, 'theLd': Bytes, 'size': Int}, requires=LEAFREQ, modifies=LEAFMOD,
+                     returns=Bytes,
+                     ensures=LEAFENS + ['len(result) == len(theLd) + size', 'forall(0, len(theLd), lambda i: result[i] == theLd[i])',
+                                        'forall(0, size, lambda i: result[len(theLd) + i] == %s[old(%s) + i])' % (D, POS)],
+                     canaries=['len(result) == len(theLd)'], crosscheck=False))
+    reg.add(Contract(PR, 'PhysRecRead.__skipLdWithinPr', {'self': RD, 'theCount': Int, 'size': Int}, requires=LEAFREQ, modifies=LEAFMOD,
+                     returns=Int, ensures=LEAFENS + ['result == theCount + size'], canaries=['result == theCount'], crosscheck=False))
+    WALKMOD = ['self.stream._stream.pos', 'self.isEOF', 'self.prLen', 'self.prAttr', 'self.ldLen', 'self._ldIndex', 'self._ldTell',
+               'self._isLrStart', 'self._mustReadHead', 'self.startOfLr', 'self.startPrPos', 'self.recNum', 'self.fileNum', 'self.checksum']
+    K = '(theSize if theSize <= old(%s) else old(%s))' % (AVAIL, AVAIL)
+    for fn, leaf, acc0, res in (('PhysRecRead.readLrBytes', '__readLdWithinPr', '0', 'len(result)'),
+                                ('PhysRecRead.skipLrBytes', '__skipLdWithinPr', '0', 'result')):
+        params = {'self': RD, 'theSize': Int}
+        if fn.endswith('readLrBytes'):
+            params['theLd'] = NoneK
+        c_ = Contract(
+            PR, fn, params, ghost=G, name=fn + '[sized]',
+            requires=[LAY, CUR, 'theSize >= 0', '0 <= self._ldTell',
+                      # there is logical data left in this physical record or in a successor
+                      'self.ldLen > self._ldIndex or bitset(self.prAttr, 0)'],
+            modifies=WALKMOD, returns=(KOpt(Bytes) if fn.endswith('readLrBytes') else Int),
+            ensures=[CUR, '%s == %s' % (res.replace('result', 'result' if fn.endswith('skipLrBytes') else 'result'), K) if fn.endswith('skipLrBytes')
+                     else 'not is_none(result) and len(result) == %s' % K,
+                     '%s == old(%s) - %s' % (AVAIL, AVAIL, K),
+                     'self.startOfLr == old(self.startOfLr)', 'self._ldTell == old(self._ldTell) + %s' % K],
+            canaries=['self.startPrPos == old(self.startPrPos)', 'self.startPrPos != old(self.startPrPos)'], crosscheck=False, timeout=40)
+        # the layout clauses chain from a record to the next: plain e-matching can run to its time limit on them, MBQI is quick
+        c_.solver_order = ['z3-mbqi-short', 'z3-ematch', 'z3-default', 'z3-seed1']
+        reg.add(c_, callable_=False)
+    reg.add(Contract(PR, 'PhysRecRead._readOrSkipPreamble', inline=True))
+    reg.add(Contract(PR, 'PhysRecRead._hasSuccessor', inline=True))
+    reg.add(Contract(PR, 'PhysRecRead._isAttrBitSet', inline=True))
+    # __readOrSkip is executed from its real body inside the two callers; its sized loop is cut at this invariant
+    reg.add(Contract(PR, 'PhysRecRead.__readOrSkip', inline=True, loops=[
+        Loop('while 1', invariants=['False']),          # the read-everything branch (theSize < 0) is not under this contract
+        Loop('while bytesRead < theSize', invariants=[
+            CUR, '0 <= bytesRead', 'bytesRead <= theSize', 'bytesRead + %s == old(%s)' % (AVAIL, AVAIL),
+            'self.startOfLr == old(self.startOfLr)', 'self._ldTell == old(self._ldTell) + bytesRead',
+            'implies(is_int(retVal), retVal == bytesRead)', 'implies(not is_int(retVal), len(retVal) == bytesRead)'])]))
 
 
 def standins(tier, seed):
